@@ -38,10 +38,11 @@ def known_probe_fault(c, b, desc, ln, known, ck, exe):
     Attributed only if (1) the classifier holds for this case and (2) the entry's own witness still fails."""
     if not known or c['cls'] != 'GenEigsComplexShiftSolver' or 'inside compute' not in desc:
         return False
-    k = int(desc.split()[3])                               # absolute application index
+    import re as _re
+    ks = [int(x) for x in _re.findall(r'\d+', desc.split('(')[0])]      # absolute application indices of the injected faults
     n_init = b['steps'][0]['opcount_call']
     iter_ops = b['steps'][1]['nops'] - n_init                # applications of the iteration proper within compute()
-    if not (k - n_init > iter_ops):
+    if not any(k - n_init > iter_ops for k in ks):
         return False
     if 'ok' not in _witness_state:
         w = known[0]['witness']
@@ -114,8 +115,9 @@ def run(ck, replay=None):
                     jobs.append((c, b, 'B-fault at B-application %d' % k, line(c, [c['start'], c['comp'], 'U', c['start'], c['comp']], extra='faultB=%d' % k), -1))
             if ck.tier == 'thorough':
                 for _ in range(10):
-                    k1 = rng.range(1, n_comp)
-                    jobs.append((c, b, 'two A-faults', line(c, [c['start'], 'F:%d' % k1, c['comp'], 'U', c['start'], 'F:%d' % rng.range(1, n_comp), c['comp'], 'U', c['start'], c['comp']]), 2))
+                    k1 = rng.range(1, n_comp); k2 = rng.range(1, n_comp)
+                    jobs.append((c, b, 'A-faults at applications %d and %d (inside compute, two runs in a row)' % (n_init + k1, n_init + k2),
+                                 line(c, [c['start'], 'F:%d' % k1, c['comp'], 'U', c['start'], 'F:%d' % k2, c['comp'], 'U', c['start'], c['comp']]), 2))
         rc, res = run_hist(exe, [j[3] for j in jobs])
         ck.oblige('fault-injection runs completed', rc == 0 and len(res) == len(jobs), 'rc=%s %d/%d' % (rc, len(res), len(jobs)))
         badf = []
